@@ -90,6 +90,8 @@ impl CgrComputer {
 
                 // Define a closure to handle buffer processing
                 let mut process_buffer = |buffer: &Vec<Sequence>| {
+                    #[cfg(feature = "verif_hooks")]
+                    ktio::verif::emit("cgr.batch_flush", &[buffer.len() as u64]);
                     let result = buffer
                         .par_iter()
                         .map(|seq| {
@@ -141,6 +143,18 @@ impl CgrComputer {
         }
 
         Ok(cgr)
+    }
+}
+
+/// public wrappers around private items, for the verification harness only
+#[cfg(feature = "verif_hooks")]
+impl CgrComputer {
+    pub fn verif_set_max_memory(&mut self, memory: usize) {
+        self.memory = memory;
+    }
+
+    pub fn verif_vectorise_one(&self, seq: &[u8]) -> Result<Vec<Point>, String> {
+        self.vectorise_one(seq)
     }
 }
 
